@@ -78,19 +78,38 @@ class Model:
         self.zero = Q(0) if mode == 'exact' else 0.0
 
     def pure(self, x):
+        """Optional spec keys: 'positional' (features are read by POSITION in the dict, like an array-based model behind a wrapper
+        without feature names), 'opt' = [weight] for an optional unexplained key 'opt0' that only some observations carry (read with
+        x.get), 'rank_order' (output labels listed by descending value, so the key order of the output dict depends on the input),
+        'out_scale' = [num, den-exponent] -> outputs multiplied by num * 10**exp (tiny / huge magnitudes)."""
         out = {}
-        for o in self.spec['outs']:
+        spec = self.spec
+        if spec.get('positional'):
+            vals = list(x.values())
+            get = lambda i: vals[i] if i < len(vals) else self.zero   # noqa: E731
+        else:
+            get = lambda i: x[self.names[i]]                          # noqa: E731
+        for o in spec['outs']:
             g = o.get('gate')
-            if g is not None and not (x[self.names[g[0]]] > g[1]):
+            if g is not None and not (get(g[0]) > g[1]):
                 continue
             v = self.zero + o['b']
-            for wi, nm in zip(o['w'], self.names):
-                if wi:
-                    v = v + wi * x[nm]
+            for i, wi in enumerate(o['w']):
+                if wi and i < len(self.names):
+                    v = v + wi * get(i)
             p = o.get('pair')
             if p is not None:
-                v = v + p[2] * x[self.names[p[0]]] * x[self.names[p[1]]]
+                v = v + p[2] * get(p[0]) * get(p[1])
             out[_label(o['label'])] = v
+        if spec.get('opt') and not spec.get('positional'):
+            first = _label(spec['outs'][0]['label'])
+            out[first] = out[first] + spec['opt'][0] * x.get('opt0', 0)
+        sc = spec.get('out_scale')
+        if sc:
+            f = Q(sc[0]) * Q(10) ** sc[1] if self.mode == 'exact' else float(sc[0]) * 10.0 ** sc[1]
+            out = {k: v * f for k, v in out.items()}
+        if spec.get('rank_order') and len(out) > 1:
+            out = dict(sorted(out.items(), key=lambda kv: (-kv[1], repr(kv[0]))))
         return out
 
     def reads(self):
